@@ -5,6 +5,8 @@ CONSTANTS VrfLen = 2
           MAXE = 6
           MAXC = 6
           Tables <- TablesT
+          NewTables <- NoNew
+          SeedBytes <- AllBytes
 INVARIANT PropC40
 INVARIANT PropC40Ranges
 CHECK_DEADLOCK FALSE
